@@ -219,101 +219,108 @@ fn kv_same(a: &KvPos, b: &KvPos) -> bool {
 	a.pos == b.pos && a.playing == b.playing && a.frac.to_bits() == b.frac.to_bits() && a.heard == b.heard && a.window[0] == b.window[0] && a.window[1] == b.window[1] && a.window[2] == b.window[2] && a.window[3] == b.window[3]
 }
 
-// @h prop=C03,C12 tier=quick kind=main timeout=280
-// @bounds 4-frame sound, symbolic start; k in 0..2 callbacks of normal play, then {pause | resume_at(Delayed 1 s) after pause | stop} with zero-length fades, then 2 callbacks in the resulting frozen state, optionally with a no-op seek (seek_by(0)) or a set_volume command issued while frozen
-// @funcs StaticSound::{on_start_processing,read_commands,process,pause,resume,stop,seek_by,seek_to_index}, PlaybackStateManager::*, Shared::{state,set_state,position}
-// @catches a paused / waiting / stopped sound emitting signal or advancing (incl. a seek pushing a frame into the resampler while frozen); handle state not mirrored; Stopped not final
-// @requires kv_resampler_peek.rs
+// @h prop=C03 tier=quick kind=main timeout=280
+// @bounds a StaticSound in ANY transport/resampler state (as c04_static_one_callback_from_any_state) whose state machine is Paused, WaitingToResume (delay pending) or Stopped; one process() call of one frame
+// @funcs StaticSound::process, PlaybackStateManager::update, StartTime::update
+// @catches a paused / waiting / stopped sound emitting signal or advancing its transport, sub-frame phase or resampler window
+// @requires kv_psm_force.rs
 #[kani::proof]
-#[kani::unwind(6)]
-fn c03_static_frozen_states_are_silent_and_still() {
+#[kani::unwind(10)]
+fn c03_static_frozen_process_is_silent_and_still() {
 	let a = KvArenas::empty();
 	let info = a.info();
-	let start: usize = kani::any();
-	kani::assume(start < 4);
-	let (mut sound, mut w) = kv_sound((0, 4), StaticSoundSettings::new().start_position(PlaybackPosition::Samples(start)).loop_region(Some(kv_region(0, 4, true))));
-	let mut out = [Frame::ZERO; 1];
-	let warm: u8 = kani::any();
-	kani::assume(warm <= 2);
-	let mut i = 0;
-	while i < warm { sound.on_start_processing(); sound.process(&mut out, 1.0, &info); i += 1; }
+	let (mut sound, _w, _position, _playing, _lp, _tue, _slice, _reverse) = kv_any_sound(1.0, 0.0);
 	let which: u8 = kani::any();
 	kani::assume(which < 3);
-	match which {
-		0 => w.pause.write(kv_zero_tween()),
-		1 => { w.pause.write(kv_zero_tween()); w.resume.write((StartTime::Delayed(Duration::from_secs(100)), kv_zero_tween())); }
-		_ => w.stop.write(kv_zero_tween()),
-	}
-	sound.on_start_processing();
-	sound.process(&mut out, 1.0, &info);
-	let want_state = match which { 0 => PlaybackState::Paused, 1 => PlaybackState::WaitingToResume, _ => PlaybackState::Stopped };
-	assert!(sound.playback_state_manager.playback_state() == want_state, "a zero-length fade completes within the callback");
-	assert!(sound.shared.state() == want_state, "the handle's state mirrors the sound's");
-	if which == 1 { assert!(out[0] == Frame::ZERO); }
+	let st = match which { 0 => PlaybackState::Paused, 1 => PlaybackState::WaitingToResume, _ => PlaybackState::Stopped };
+	sound.playback_state_manager = PlaybackStateManager::kv_forced(st, StartTime::Delayed(Duration::from_secs(100)));
 	let before = kv_pos(&sound);
-	// a command that must not move a frozen sound
-	let extra: u8 = kani::any();
-	kani::assume(extra < 3);
-	match extra {
-		0 => {}
-		1 => w.seek_by.write(0.0),
-		_ => w.set_volume.write(ValueChangeCommand { target: Value::Fixed(Decibels(-6.0)), tween: kv_zero_tween() }),
-	}
-	sound.on_start_processing();
-	let reported = sound.shared.position();
+	let mut out = [Frame::from_mono(7.0); 1];
 	sound.process(&mut out, 1.0, &info);
 	assert!(out[0] == Frame::ZERO, "exact silence while Paused / WaitingToResume / Stopped");
-	sound.on_start_processing();
-	sound.process(&mut out, 1.0, &info);
-	assert!(out[0] == Frame::ZERO);
 	let after = kv_pos(&sound);
 	assert!(kv_same(&before, &after), "the position does not advance while frozen");
-	assert!(reported.to_bits() == sound.shared.position().to_bits());
-	assert!(sound.playback_state_manager.playback_state() == want_state);
+	assert!(sound.playback_state_manager.playback_state() == st);
 	assert!(sound.finished() == (which == 2));
-	kani::cover!(which == 0 && extra == 1 && warm == 1, "w:seek-while-paused");
-	kani::cover!(which == 2 && extra == 2, "w:set-volume-after-stop");
-	std::mem::forget(sound); std::mem::forget(w);
+	kani::cover!(which == 0, "w:paused");
+	kani::cover!(which == 1, "w:waiting");
+	std::mem::forget(sound);
+}
+
+// @h prop=C03 tier=quick kind=main timeout=280
+// @bounds a sound waiting for its own start time (StartTime::Delayed pending, state Playing) in any transport/resampler state: one process() call
+// @funcs StaticSound::process, StartTime::update
+// @catches a sound emitting audio or advancing before its start time
+#[kani::proof]
+#[kani::unwind(10)]
+fn c03_static_before_start_time_is_silent_and_still() {
+	let a = KvArenas::empty();
+	let info = a.info();
+	let (mut sound, _w, _position, _playing, _lp, _tue, _slice, _reverse) = kv_any_sound(1.0, 0.0);
+	sound.start_time = StartTime::Delayed(Duration::from_secs(100));
+	let before = kv_pos(&sound);
+	let mut out = [Frame::from_mono(7.0); 1];
+	sound.process(&mut out, 1.0, &info);
+	assert!(out[0] == Frame::ZERO && kv_same(&before, &kv_pos(&sound)), "silent and still until the start time");
+	assert!(sound.start_time == StartTime::Delayed(Duration::from_secs(99)));
+	kani::cover!(_playing, "w:playing");
+	std::mem::forget(sound);
+}
+
+// @h prop=C03,C04 tier=quick kind=main timeout=280
+// @bounds seek_to_index(i), i <= 4 symbolic, on a sound in ANY transport/resampler state, in every one of the seven playback states
+// @funcs StaticSound::seek_to_index, StaticSound::push_frame_to_resampler, Transport::seek_to
+// @catches a seek issued while the sound is frozen pushing a frame into the resampler window (the reported position then creeps by one frame per seek); a seek while playing NOT refreshing the window
+// @requires kv_psm_force.rs
+#[kani::proof]
+#[kani::unwind(10)]
+fn c03_static_seek_pushes_a_frame_only_while_advancing() {
+	let (mut sound, w, _position, _playing, _lp, tue, _slice, _reverse) = kv_any_sound(1.0, 0.0);
+	let sel: u8 = kani::any();
+	kani::assume(sel < 7);
+	let st = match sel { 0 => PlaybackState::Playing, 1 => PlaybackState::Pausing, 2 => PlaybackState::Paused, 3 => PlaybackState::WaitingToResume, 4 => PlaybackState::Resuming, 5 => PlaybackState::Stopping, _ => PlaybackState::Stopped };
+	sound.playback_state_manager = PlaybackStateManager::kv_forced(st, StartTime::Delayed(Duration::from_secs(100)));
+	let target: usize = kani::any();
+	kani::assume(target <= 4);
+	sound.seek_to_index(target);
+	let idx = sound.resampler.kv_indices();
+	if st.is_advancing() {
+		assert!(idx[0] == w[1].index && idx[1] == w[2].index && idx[2] == w[3].index && idx[3] == sound.transport.position, "while audible, the frame sought to is pushed so that it is not skipped");
+	} else {
+		assert!(idx[0] == w[0].index && idx[1] == w[1].index && idx[2] == w[2].index && idx[3] == w[3].index && sound.resampler.kv_time_until_empty() == tue,
+			"a seek issued while the sound is frozen does not touch the window: the position heard does not advance");
+	}
+	kani::cover!(sel == 2, "w:paused");
+	kani::cover!(sel == 0, "w:playing");
+	std::mem::forget(sound);
 }
 
 // @h prop=C03,C07 tier=quick kind=main timeout=280
-// @bounds a Stopped 3-frame sound; every command kind (pause, resume, resume_at, seek_by, seek_to, set_loop_region, set_playback_rate) with symbolic payload; then two callbacks
-// @funcs StaticSound::read_commands, StaticSound::process, PlaybackStateManager::{pause,resume,stop}
-// @catches a command resurrecting a stopped sound; a stopped sound emitting audio after a seek
+// @bounds pause / resume / resume_at / stop applied (as read_commands applies them) to a Stopped sound in any transport/resampler state, then one process() call
+// @funcs StaticSound::{pause,resume,stop,process,update_shared_playback_state}, PlaybackStateManager::{pause,resume,stop,update}
+// @catches a command resurrecting a stopped sound
+// @requires kv_psm_force.rs
 #[kani::proof]
-#[kani::unwind(6)]
-fn c03_static_stopped_ignores_every_command() {
+#[kani::unwind(10)]
+fn c03_static_stopped_ignores_state_commands() {
 	let a = KvArenas::empty();
 	let info = a.info();
-	let (mut sound, mut w) = kv_sound((0, 3), StaticSoundSettings::new());
-	let mut out = [Frame::ZERO; 1];
-	w.stop.write(kv_zero_tween());
-	sound.on_start_processing();
-	sound.process(&mut out, 1.0, &info);
-	assert!(sound.finished());
+	let (mut sound, _w, _position, _playing, _lp, _tue, _slice, _reverse) = kv_any_sound(1.0, 0.0);
+	sound.playback_state_manager = PlaybackStateManager::kv_forced(PlaybackState::Stopped, StartTime::Immediate);
+	sound.shared.set_state(PlaybackState::Stopped);
 	let cmd: u8 = kani::any();
-	kani::assume(cmd < 7);
-	let x: f64 = kani::any();
-	kani::assume(x >= -4.0 && x <= 4.0);
+	kani::assume(cmd < 4);
 	match cmd {
-		0 => w.pause.write(kv_zero_tween()),
-		1 => w.resume.write((StartTime::Immediate, kv_zero_tween())),
-		2 => w.resume.write((StartTime::Delayed(Duration::from_secs(1)), kv_zero_tween())),
-		3 => w.seek_by.write(x),
-		4 => w.seek_to.write(x.abs()),
-		5 => w.set_loop_region.write(Some(kv_region(0, 2, false))),
-		_ => w.set_playback_rate.write(ValueChangeCommand { target: Value::Fixed(PlaybackRate(x)), tween: kv_zero_tween() }),
+		0 => sound.pause(kv_zero_tween()),
+		1 => sound.resume(StartTime::Immediate, kv_zero_tween()),
+		2 => sound.resume(StartTime::Delayed(Duration::from_secs(1)), kv_zero_tween()),
+		_ => sound.stop(kv_zero_tween()),
 	}
-	let mut i = 0;
-	while i < 2 {
-		sound.on_start_processing();
-		sound.process(&mut out, 1.0, &info);
-		assert!(out[0] == Frame::ZERO && sound.finished() && sound.shared.state() == PlaybackState::Stopped, "Stopped is permanent and silent");
-		i += 1;
-	}
+	let mut out = [Frame::from_mono(7.0); 1];
+	sound.process(&mut out, 1.0, &info);
+	assert!(out[0] == Frame::ZERO && sound.finished() && sound.shared.state() == PlaybackState::Stopped, "Stopped is permanent and silent");
 	kani::cover!(cmd == 1, "w:resume-after-stop");
-	kani::cover!(cmd == 4, "w:seek-after-stop");
-	std::mem::forget(sound); std::mem::forget(w);
+	std::mem::forget(sound);
 }
 
 // ---------------------------------------------------------------------------------------------
